@@ -147,7 +147,7 @@ def _gen_task(rng, gen_base, ngens, nops, files, tname, small=False):
 
 
 def _cfg(rng):
-    return {"genclass": rng.choice(["plain", "plain", "plain", "journal", "duck", "own"]), "flavour": rng.choice(["inc", "inc", "opaque"]), "salt": rng.getrandbits(32), "chunk_max": rng.choice([0, 1, 2, 3, 7, 64]),
+    return {"genclass": rng.choice(["plain", "plain", "plain", "journal", "duck", "own"]), "flavour": rng.choice(["inc", "inc", "inc", "opaque", "weird"]), "salt": rng.getrandbits(32), "chunk_max": rng.choice([0, 1, 2, 3, 7, 64]),
             "fs_seed": rng.getrandbits(30), "locale": rng.choice(["utf-8", "utf-8", "cp1252", "ascii"])}
 
 
